@@ -278,7 +278,7 @@ class DocGen:
                     + ([self.ref(r.choice(self.refs_of_kind(("model",))))] if self.refs_of_kind(("model",)) else [])
                 )
             elif a < 0.6:
-                s["additionalProperties"] = r.choice([True, True, {}])  # ({}: the empty schema, spelled out)
+                s["additionalProperties"] = r.choice([True, {}, {}])  # ({}: the empty schema, spelled out)
         return self.desc(s)
 
     def _inline_allof_parents(self) -> list[str]:
